@@ -179,7 +179,7 @@ func syncTable(r *R, rule string, c14 bool) {
 		if !ok {
 			return "", false
 		}
-		return strings.TrimPrefix(lab, "go "), true
+		return strings.ReplaceAll(strings.TrimPrefix(lab, "go "), "+go ", "+"), true
 	}
 	// start at the lookup's block (the body's first block), from the loop head
 	r.dtCheck(rule, fn, "per-container decision", dom, atom, look.Block(), startIdx, head, stop, action, expect)
@@ -375,4 +375,254 @@ func constStr(c constant.Value) (string, bool) {
 		return "", false
 	}
 	return constant.StringVal(c), true
+}
+
+func init() {
+	extraRules["C14"] = append(extraRules["C14"], func(r *R) { runQueueTable(r, "C14-R13", true) })
+	extraRules["C15"] = append(extraRules["C15"], func(r *R) { runQueueTable(r, "C15-R12", false) })
+}
+
+// runQueueTable: one iteration of runQueue's loop over the priority-sorted queue as a decision table over
+// (State, reported by the pool, priority, unallocated workers of the type, AtQuota, KillContainer result, Create result,
+// type refused earlier in this pass, StartContainer result).
+// c14: rows on which a start / lock must NOT happen. Otherwise (C15): rows on which it MUST (a runnable container
+// with a worker available is started; a queued one is locked; at quota a Locked container without a worker is unlocked).
+func runQueueTable(r *R, rule string, c14 bool) {
+	if c14 {
+		r.Rule(rule, "scheduler.runQueue decision table (finite-domain interpretation of one loop iteration): StartContainer is called on no row other than State==Locked ∧ not reported by the pool ∧ priority ≥ 1 ∧ type not refused earlier ∧ KillContainer()==false (and a worker unallocated, or created below quota); lockContainer on no row other than State==Queued ∧ not reported ∧ priority ≥ 1", 1)
+	} else {
+		r.Rule(rule, "scheduler.runQueue decision table: a Locked, unreported, positive-priority container whose type has an unallocated worker (or one can be created below quota), not refused earlier and with no lingering process, IS started; a Queued one with capacity IS locked; at quota without an unallocated worker a Locked container IS unlocked and the scan stops", 1)
+	}
+	fn := r.NeedFn(rule, "(*"+sc+".Scheduler).runQueue")
+	if fn == nil {
+		return
+	}
+	var look *ssa.Lookup
+	allInstrs(fn, func(in ssa.Instruction) {
+		if l, ok := in.(*ssa.Lookup); ok && l.CommaOk && isInvokeResult(l.X, "Running", 0) {
+			look = l
+		}
+	})
+	if look == nil {
+		r.Und(rule, fn, "per-container loop", fn.Pos(), "comma-ok lookup in pool.Running() not found")
+		return
+	}
+	head := loopHeaderOf(look.Block())
+	if head == nil {
+		r.Und(rule, fn, "per-container loop", look.Pos(), "loop head not found")
+		return
+	}
+	// the body's first block: the successor of the head inside the loop
+	body := loopBody(head)
+	var start *ssa.BasicBlock
+	for _, s := range head.Succs {
+		if body[s] {
+			start = s
+		}
+	}
+	if start == nil {
+		r.Und(rule, fn, "per-container loop", look.Pos(), "loop body not found")
+		return
+	}
+	invokeRes := func(v ssa.Value, method string) bool {
+		c, ok := v.(*ssa.Call)
+		return ok && c.Call.IsInvoke() && c.Call.Method.Name() == method
+	}
+	atom := func(v ssa.Value) (string, bool) {
+		if l := commaOkOf(v, 1); l != nil && l == look {
+			return "reported", true
+		}
+		if _, f, _, ok := LoadedField(v); ok {
+			cs := Canon(v)
+			if f == "State" && strings.Contains(cs, "Container") {
+				return "state", true
+			}
+			if f == "Priority" && strings.Contains(cs, "Container") {
+				return "priority", true
+			}
+		}
+		if l, ok := v.(*ssa.Lookup); ok && !l.CommaOk {
+			if isInvokeResult(l.X, "Unallocated", 0) {
+				return "unalloc", true
+			}
+			if _, isMk := Resolve1(l.X).(*ssa.MakeMap); isMk && isBoolType(l.Type()) {
+				return "refusedEarlier", true
+			}
+		}
+		if c, ok := v.(*ssa.Call); ok && CalleeName(&c.Call) == "(time.Time).IsZero" {
+			if l := commaOkOf(Strip(CallRecvOrArg0(&c.Call)), 0); l == look {
+				return "exitZero", true
+			}
+		}
+		switch {
+		case invokeRes(v, "AtQuota"):
+			return "atQuota", true
+		case invokeRes(v, "KillContainer"):
+			return "lingering", true
+		case invokeRes(v, "Create"):
+			return "created", true
+		case invokeRes(v, "StartContainer"):
+			return "started", true
+		}
+		return "", false
+	}
+	dom := map[string][]dval{
+		"state":          {dS("Queued"), dS("Locked"), dS("Running"), dS("Complete"), dS("Cancelled")},
+		"reported":       {dI(0), dI(1)},
+		"priority":       {dI(0), dI(1), dI(500)},
+		"unalloc":        {dI(0), dI(2)},
+		"atQuota":        {dI(0), dI(1)},
+		"lingering":      {dI(0), dI(1)},
+		"created":        {dI(0), dI(1)},
+		"refusedEarlier": {dI(0), dI(1)},
+		"started":        {dI(0), dI(1)},
+		"exitZero":       {dI(0), dI(1)}, // not consulted today; a reported container is skipped whether or not its process has exited
+	}
+	action := func(in ssa.Instruction) (string, bool) {
+		lab, ok := moduleAction(in)
+		if !ok {
+			return "", false
+		}
+		return strings.ReplaceAll(strings.TrimPrefix(lab, "go "), "+go ", "+"), true
+	}
+	expect := func(v map[string]dval) *dtExpect {
+		st, rep, prio := v["state"].s, v["reported"].i == 1, v["priority"].i
+		if !rep && v["exitZero"].i == 0 {
+			return nil // infeasible: no exit time without a report
+		}
+		un, quota, ling, created, refused := v["unalloc"].i, v["atQuota"].i == 1, v["lingering"].i == 1, v["created"].i == 1, v["refusedEarlier"].i == 1
+		if v["started"].i == 1 && c14 {
+			// the result of StartContainer does not influence whether it is called; keep one representative
+			return nil
+		}
+		workerAvail := un > 0 || (!quota && created)
+		if c14 {
+			var no []string
+			why := ""
+			if !(st == "Locked" && !rep && prio >= 1 && !refused && !ling && workerAvail) {
+				no = append(no, "StartContainer")
+				why = "no start outside Locked ∧ unreported ∧ priority ≥ 1 ∧ not refused earlier ∧ no lingering process ∧ worker available"
+			}
+			if !(st == "Queued" && !rep && prio >= 1) {
+				no = append(no, "lockContainer")
+				if why == "" {
+					why = "no lock outside Queued ∧ unreported ∧ priority ≥ 1"
+				} else {
+					why = "neither start nor lock for a container that is reported by the pool, on hold, or in another state"
+					if st == "Locked" || st == "Queued" {
+						why = "no start / lock outside the conditions of the statement (State, not reported, priority ≥ 1, order, lingering process)"
+					}
+				}
+			}
+			if len(no) == 0 {
+				return nil
+			}
+			return &dtExpect{mustNot: no, why: why}
+		}
+		if v["started"].i == 0 {
+			return nil // one representative of the StartContainer outcome is enough for the must-rows
+		}
+		switch {
+		case st == "Locked" && !rep && prio >= 1 && workerAvail && !refused && !ling:
+			return &dtExpect{must: []string{"StartContainer"}, why: "runnable Locked container with a worker available ⇒ StartContainer"}
+		case st == "Queued" && !rep && prio >= 1 && !(un < 1 && quota) && !ling:
+			return &dtExpect{must: []string{"lockContainer"}, why: "Queued container with capacity (or below quota) ⇒ lockContainer"}
+		case st == "Locked" && !rep && prio >= 1 && un < 1 && quota:
+			return &dtExpect{must: []string{"Unlock"}, mustNot: []string{"StartContainer"}, why: "at quota without an unallocated worker ⇒ the Locked container is unlocked, not started"}
+		}
+		return nil
+	}
+	r.dtCheck(rule, fn, "per-container decision", dom, atom, start, 0, head, func(b *ssa.BasicBlock) bool { return b == head || !start.Dominates(b) }, action, expect)
+}
+
+func init() {
+	extraRules["C05"] = append(extraRules["C05"], c05EmissionTable)
+}
+
+// c05EmissionTable (C05-R10): the per-slot emission step of balanceBlock as a decision table over
+// (slot.want, slot.repl present, replica mtime vs MinMtime, number of known replicas, mount read-only).
+func c05EmissionTable(r *R) {
+	const rule = "C05-R10"
+	r.Rule(rule, "balanceBlock emission decision table (finite-domain interpretation over want × replica present × mtime vs MinMtime × known replicas × mount read-only): AddTrash exactly on rows NOT wanted ∧ replica present ∧ mtime < MinMtime; AddPull exactly on rows wanted ∧ no replica ∧ some replica exists ∧ mount writable", 1)
+	fn := r.NeedFn(rule, "(*"+kb+".Balancer).balanceBlock")
+	if fn == nil {
+		return
+	}
+	trs := CallsIn(fn, "(*"+kb+".ChangeSet).AddTrash")
+	if len(trs) != 1 {
+		r.Und(rule, fn, "AddTrash", fn.Pos(), "expected exactly one AddTrash call")
+		return
+	}
+	head := loopHeaderOf(trs[0].Block())
+	if head == nil {
+		r.Und(rule, fn, "emission loop", trs[0].Pos(), "loop head not found")
+		return
+	}
+	body := loopBody(head)
+	var start *ssa.BasicBlock
+	for _, s := range head.Succs {
+		if body[s] {
+			start = s
+		}
+	}
+	if start == nil {
+		r.Und(rule, fn, "emission loop", trs[0].Pos(), "loop body not found")
+		return
+	}
+	atom := func(v ssa.Value) (string, bool) {
+		if t, f, _, ok := LoadedField(v); ok {
+			switch {
+			case strings.HasSuffix(t, "keep-balance.slot") && f == "want":
+				return "want", true
+			case strings.HasSuffix(t, "keep-balance.slot") && f == "repl":
+				return "repl", true
+			case strings.HasSuffix(t, "keep-balance.Replica") && f == "Mtime":
+				return "mtime", true
+			case strings.HasSuffix(t, "keep-balance.Balancer") && f == "MinMtime":
+				return "minMtime", true
+			case f == "ReadOnly":
+				return "readOnly", true
+			}
+		}
+		if c, ok := v.(*ssa.Call); ok && CalleeName(&c.Call) == "builtin.len" {
+			if _, f, _, ok := LoadedField(Resolve1(c.Call.Args[0])); ok && f == "Replicas" {
+				return "nReplicas", true
+			}
+		}
+		return "", false
+	}
+	dom := map[string][]dval{
+		"want": {dI(0), dI(1)}, "repl": {dI(0), dI(1)}, "mtime": {dI(5), dI(10), dI(15)}, "minMtime": {dI(10)},
+		"nReplicas": {dI(0), dI(2)}, "readOnly": {dI(0), dI(1)},
+	}
+	// the Dumper branch is not part of the decision: treat bal.Dumper as absent
+	atom2 := func(v ssa.Value) (string, bool) {
+		if _, f, _, ok := LoadedField(v); ok && f == "Dumper" {
+			return "dumper", true
+		}
+		return atom(v)
+	}
+	dom["dumper"] = []dval{dI(0)}
+	r.dtCheck(rule, fn, "per-slot emission", dom, atom2, start, 0, head, func(b *ssa.BasicBlock) bool { return b == head || !start.Dominates(b) }, moduleAction,
+		func(v map[string]dval) *dtExpect {
+			want, repl, old := v["want"].i == 1, v["repl"].i == 1, v["mtime"].i < v["minMtime"].i
+			n, ro := v["nReplicas"].i, v["readOnly"].i == 1
+			if repl && n == 0 {
+				return nil // infeasible: the slot holds a replica, so the block has one
+			}
+			trash := !want && repl && old
+			pull := want && !repl && n > 0 && !ro
+			switch {
+			case trash:
+				return &dtExpect{must: []string{"AddTrash"}, mustNot: []string{"AddPull"}, why: "unwanted old replica ⇒ trash request"}
+			case pull:
+				return &dtExpect{must: []string{"AddPull"}, mustNot: []string{"AddTrash"}, why: "wanted, missing, writable, a source exists ⇒ pull request"}
+			case repl && !old:
+				return &dtExpect{mustNot: []string{"AddTrash", "AddPull"}, why: "a replica newer than MinMtime is never trashed"}
+			case repl && want:
+				return &dtExpect{mustNot: []string{"AddTrash", "AddPull"}, why: "a wanted replica is never trashed"}
+			default:
+				return &dtExpect{mustNot: []string{"AddTrash", "AddPull"}, why: "no request for an empty unwanted slot, a read-only target, or a block without any replica"}
+			}
+		})
 }
